@@ -2,7 +2,6 @@
 #pragma once
 #include "../common/hv.h"
 #include <igris/protocols/gstuff.h>
-#include <igris/util/crc.h>
 #include <algorithm>
 
 using namespace hv;
